@@ -237,13 +237,13 @@ End STAGE.
 Lemma gen_install_allowed : forall c s o g,
   op_runs c o = true -> hex_ok (o_hex o) = true -> is_vstr (o_head o) = true -> is_sidecar (g_sidecar g) = true ->
   (o_kind o = KCommit \/ o_kind o = KUpgrade) ->
-  (if o_exists o then
+  (if o_found o then
      match mobj_at s (N_o c o) with Some m => negb (mem_seg (o_head o) (m_versions m)) | None => false end
      && forallb is_obj_decl (g_olddecl g) && match g_newdecl g with Some d => is_obj_decl d | None => true end
    else new_root_ok s (c_root c) (o_rel o)) = true ->
   Forall (AL c s o) (g_install c o g).
 Proof.
-  intros c s o g RUN HX VS SC K H. unfold g_install. destruct (o_exists o) eqn:EX.
+  intros c s o g RUN HX VS SC K H. unfold g_install. destruct (o_found o) eqn:EX.
   - apply andb_true_iff in H as [H D2]. apply andb_true_iff in H as [H D1].
     destruct (mobj_at s (N_o c o)) as [m|] eqn:M; [|discriminate].
     assert (CV : forall f, commit_version c s o f = true -> allowed c s o f = true).
